@@ -266,13 +266,17 @@ Ctxs == <<Ctx1, Ctx2, Ctx3>>
 (***************************************************************************)
 (* Judging an outcome of the implementation.                               *)
 (* outcome = [kind |-> "value", v |-> Value] | [kind |-> "experr"]         *)
-(*         | [kind |-> "other", exc |-> "TypeError"]                       *)
+(*         | [kind |-> "other"]  (any other exception escaped)             *)
+(*         | [kind |-> "alien", truthy |-> BOOLEAN]  (a Python value of a  *)
+(*            type outside the modelled universe, e.g. a type object)      *)
 (***************************************************************************)
-Total(o)         == o.kind \in {"value", "experr"}
+Total(o)         == o.kind \in {"value", "experr", "alien"}
 Conf(o, n, ctx)  == LET r == EvalTop(n, ctx)
                     IN  IF IsErr(r) THEN o.kind = "experr" ELSE o.kind = "value" /\ o.v = r
 \* the branch decision the callers derive from it (error = falsy for the split, = enabled for skip)
-Branch(o)        == IF o.kind = "value" THEN IF Truthy(o.v) THEN "T" ELSE "F" ELSE "E"
+Branch(o)        == CASE o.kind = "value" -> IF Truthy(o.v) THEN "T" ELSE "F"
+                      [] o.kind = "alien" -> IF o.truthy THEN "T" ELSE "F"
+                      [] OTHER            -> "E"
 BranchOf(r)      == IF IsErr(r) THEN "E" ELSE IF Truthy(r) THEN "T" ELSE "F"
 SameBranch(o, n, ctx) == Branch(o) = BranchOf(EvalTop(n, ctx))
 =============================================================================
